@@ -314,11 +314,134 @@ theorem C07_spendable_bin_rt (s : Spendable) (h : s.WF) (rest : Bytes) :
   rw [List.append_nil] at this
   simp [Spendable.fromBin, this]
 
+/-! ## spendable text form -/
+
+namespace Spendable
+
+theorem digitVal_digitChar : ∀ n : Fin 10, digitVal? (Nat.digitChar n.val) = some n.val := by decide
+
+theorem decGo_append (c : Char) : ∀ (l : List Char) (acc : Nat),
+    decGo (l ++ [c]) acc = (decGo l acc).bind (fun m => (digitVal? c).map (fun d => 10 * m + d))
+  | [], acc => by
+    cases h : digitVal? c <;> simp [decGo, h]
+  | x :: xs, acc => by
+    cases h : digitVal? x <;> simp [decGo, h, decGo_append c xs]
+
+theorem decGo_toDigits (n : Nat) : decGo (Nat.toDigits 10 n) 0 = some n := by
+  induction n using Nat.strongRecOn with
+  | _ n ih =>
+    rw [Nat.toDigits_eq_if (by decide)]
+    split
+    · rename_i h
+      have := digitVal_digitChar ⟨n, h⟩
+      simp only at this
+      simp [decGo, this]
+    · rename_i h
+      rw [decGo_append, ih (n / 10) (by omega)]
+      have := digitVal_digitChar ⟨n % 10, by omega⟩
+      simp only at this
+      simp [this]
+      omega
+
+theorem decToNat_natToDec (n : Nat) : decToNat? (natToDec n) = some n := by
+  unfold decToNat? natToDec
+  split
+  · rename_i h; exact absurd h Nat.toDigits_ne_nil
+  · exact decGo_toDigits n
+
+theorem natToDec_digits (n : Nat) : ∀ c ∈ natToDec n, c.isDigit = true :=
+  fun _ hc => Nat.isDigit_of_mem_toDigits (by decide) (by decide) hc
+
+theorem pyInt_intToDec (v : Int) : pyInt? (intToDec v) = .ok v := by
+  unfold intToDec
+  split
+  · rename_i h
+    simp only [pyInt?, if_true, decToNat_natToDec]
+    have e : -(v.natAbs : Int) = v := by
+      rw [Int.ofNat_natAbs_of_nonpos (Int.le_of_lt h)]
+      exact Int.neg_neg v
+    rw [e]
+  · rename_i h
+    cases hd : natToDec v.toNat with
+    | nil => exact absurd hd Nat.toDigits_ne_nil
+    | cons c r =>
+      have hc : c.isDigit = true := natToDec_digits v.toNat c (by rw [hd]; simp)
+      have h1 : ¬ c = '-' := by intro e; subst e; revert hc; decide
+      have h2 : ¬ c = '+' := by intro e; subst e; revert hc; decide
+      simp only [pyInt?, h1, h2, if_false]
+      rw [← hd, decToNat_natToDec]
+      simp only
+      rw [Int.toNat_of_nonneg (Int.not_lt.mp h)]
+
+theorem intToDec_noSlash (v : Int) : '/' ∉ intToDec v := by
+  unfold intToDec
+  intro h
+  split at h
+  · rcases List.mem_cons.mp h with h | h
+    · revert h; decide
+    · have := natToDec_digits _ _ h; revert this; decide
+  · have := natToDec_digits _ _ h; revert this; decide
+
+theorem digit_noSlash : ∀ n : Fin 16, Hex.digit n.val ≠ '/' := by decide
+
+theorem encodeChars_noSlash : ∀ b : Bytes, '/' ∉ Hex.encodeChars b
+  | [] => by simp [Hex.encodeChars]
+  | x :: bs => by
+    have h1 := digit_noSlash ⟨x.toNat / 16, by have := x.toNat_lt; omega⟩
+    have h2 := digit_noSlash ⟨x.toNat % 16, by omega⟩
+    simp only at h1 h2
+    simp only [Hex.encodeChars, List.mem_cons, not_or]
+    exact ⟨fun e => h1 e.symm, fun e => h2 e.symm, encodeChars_noSlash bs⟩
+
+theorem splitGo_noSep (c : Char) : ∀ (p cur : List Char), c ∉ p → splitGo c p cur = [cur.reverse ++ p]
+  | [], cur, _ => by simp [splitGo]
+  | x :: xs, cur, h => by
+    have hx : ¬ x = c := fun e => h (by simp [e])
+    simp only [splitGo, hx, if_false]
+    rw [splitGo_noSep c xs (x :: cur) (fun hm => h (by simp [hm]))]
+    simp
+
+theorem splitGo_sep (c : Char) : ∀ (p cur r : List Char), c ∉ p →
+    splitGo c (p ++ c :: r) cur = (cur.reverse ++ p) :: splitGo c r []
+  | [], cur, r, _ => by simp [splitGo]
+  | x :: xs, cur, r, h => by
+    have hx : ¬ x = c := fun e => h (by simp [e])
+    simp only [List.cons_append, splitGo, hx, if_false]
+    rw [splitGo_sep c xs (x :: cur) r (fun hm => h (by simp [hm]))]
+    simp
+
+end Spendable
+
+theorem h2b_encode (b : Bytes) : Tx.h2b (Hex.encodeChars b) = .ok b := h2b_b2h b
+
+/-- C07.spendable_text_rt: `from_text(as_text(s)) = s` for every spendable whose spent flag is 0 or 1 (what a `bool`
+argument stores); integers of any size -/
+theorem C07_spendable_text_rt (s : Spendable) (hd : s.doesSeemSpent = 0 ∨ s.doesSeemSpent = 1) :
+    Spendable.fromText s.asText = .ok s := by
+  open Spendable in
+  unfold Spendable.fromText Spendable.asText Spendable.split
+  simp only [Spendable.join, Tx.b2hRev, Tx.b2h]
+  rw [splitGo_sep '/' _ [] _ (encodeChars_noSlash _), splitGo_sep '/' _ [] _ (intToDec_noSlash _),
+    splitGo_sep '/' _ [] _ (encodeChars_noSlash _), splitGo_sep '/' _ [] _ (intToDec_noSlash _),
+    splitGo_sep '/' _ [] _ (intToDec_noSlash _), splitGo_sep '/' _ [] _ (intToDec_noSlash _),
+    splitGo_noSep '/' _ [] (intToDec_noSlash _)]
+  simp only [List.reverse_nil, List.nil_append, List.cons_append, List.take_succ_cons, List.take_zero,
+    pyInt_intToDec, h2b_encode, bind, Except.bind, pure, Except.pure, List.reverse_reverse]
+  have : (if s.doesSeemSpent = 0 then (0 : Int) else 1) = s.doesSeemSpent := by
+    rcases hd with h | h <;> rw [h] <;> rfl
+  cases s
+  simp only at this ⊢
+  rw [this]
+
 /-! ## non-vacuity -/
 
 def exIn : TxIn := ⟨List.replicate 32 0x11, 7, [0x51], 0xFFFFFFFE, [[], [1, 2], []]⟩
 def exTx : Tx := ⟨2, [exIn, { exIn with witness := [] }], [⟨18446744073709551615, [0x6a]⟩], 500000⟩
 
+def exSp : Spendable := ⟨18446744073709551615, [0x51, 0x52], List.replicate 32 0xab, 4294967295, 253, 1, 65536⟩
+#guard (match exSp.asBin true with | .ok b => (match Spendable.fromBin b with | .ok s => s == exSp | _ => false) | _ => false)
+#guard (match Spendable.fromText exSp.asText with | .ok s => s == exSp | _ => false)
+#guard (match Spendable.fromDict exSp.asDict with | .ok s => s == exSp | _ => false)
 #guard (exTx.stream matches .ok _)
 #guard (match exTx.stream with | .ok b => b == Spec.Wire.ser exTx | _ => false)
 #guard (match Tx.parse .btc (Spec.Wire.ser exTx ++ [9]) with | .ok (t, r) => t == exTx && r == [9] | _ => false)
